@@ -30,6 +30,9 @@ type CLIJob struct {
 	Prefill []byte   // written to the output path before the run (nil = no file)
 	Env     []string
 	Setup   func(dir string) // extra preparation (directories, permissions)
+	Post    func(dir string) // after the process has ended, before the output is read
+	OutFrom string           // read the output from this file of the job directory instead of the output path (FIFO destinations)
+	NoRead  bool             // the output path is not a regular file: do not read it back
 	KeepDir bool
 }
 
@@ -151,6 +154,15 @@ func (e *Env) runCLI1(j CLIJob, i int) CLIRun {
 	}
 	if !filepath.IsAbs(op) {
 		op = filepath.Join(dir, op)
+	}
+	if j.Post != nil {
+		j.Post(dir)
+	}
+	if j.OutFrom != "" {
+		op = filepath.Join(dir, j.OutFrom)
+	}
+	if j.NoRead {
+		return r
 	}
 	if b, err := os.ReadFile(op); err == nil {
 		r.Out, r.OutExist = b, true
